@@ -26,10 +26,20 @@ PARENT = 40
 SELF = A.SELF_PID
 SOCK = "/run/gv/u.sock"
 
+def _reload_dot2():
+    """does reload() of the tree under test keep '.2' while master_pid != 0?  (same reading as gen_upgrade.py)"""
+    import inspect
+    import gunicorn.arbiter as ga
+    src = inspect.getsource(ga.Arbiter.reload)
+    return "Pidfile(self.cfg.pidfile)" not in src
+
+
+RELOAD_DOT2 = _reload_dot2()
 KEY_HUPCHILD = "hup-child-master-pidfile"
 KEY_BOTHSTOP = "simultaneous-stop-leaves-socket"
 KEY_ACCEPTED = "accepted-not-started-dropped"
 KEY_RX = "reexec-fork-reap-race"
+KEY_DASHM = "python-m-reexec-syspath"
 
 
 # ---------------------------------------------------------------------------------------------------------------------
@@ -230,15 +240,15 @@ class Up:
             if pidconf:
                 if self.read_pid(myfile) == pid:
                     os.unlink(myfile)
-                main = w.pidpath("g.pid")
+                dot2 = RELOAD_DOT2 and st["role"] == "child"
+                main = w.pidpath("g.pid.2" if dot2 else "g.pid")
                 holder = self.read_pid(main)
+                st["pname"] = 2 if dot2 else 1
                 if holder is not None and holder != pid and self.pid_alive(holder):
-                    st["pname"] = 1
                     die(255)               # RuntimeError in reload(): stop(False); sys.exit(-1)
                 else:
                     with open(main, "w") as fh:
                         fh.write("%d\n" % pid)
-                    st["pname"] = 1
         elif kind == "WINCH":
             if self.cfg["daemon"]:
                 st["workers"] = 0
@@ -546,6 +556,12 @@ def run(ctx):
 def replay(rep):
     if rep.get("kind") == "real":
         fails, tr = upgrade_scenario(*rep["scenario"])
+        for t in tr:
+            print(t)
+        print("failures:", fails)
+        return 1 if fails else 0
+    if rep.get("kind") == "real-dash-m":
+        fails, tr = dash_m_scenario()
         for t in tr:
             print(t)
         print("failures:", fails)
@@ -861,7 +877,46 @@ def upgrade_scenario(name, bind="unix", stop_sig="TERM", worker_class="sync"):
     return fails, tr
 
 
+def dash_m_scenario():
+    """started as `python -m gunicorn`, application imports the standard library's http package: does USR2 bring up a new master?"""
+    fails, tr = [], []
+    srv = R.Server(worker_class="sync", workers=1, graceful=3, bind="unix", dash_m=True, app_prelude="import http.client\n")
+    try:
+        srv.start()
+        old = srv.master
+        srv.signal(_signal.SIGUSR2, old)
+        new = wait_for(lambda: srv.read_pid(".2"), 10)
+        up = bool(new) and bool(wait_for(lambda: len(srv.children(new)) >= 1 and R.pid_alive(new), 6))
+        time.sleep(1.0)
+        up = up and R.pid_alive(new) and len(srv.children(new)) >= 1
+        with open("/proc/%d/cmdline" % old, "rb") as fh:
+            tr.append(("old master cmdline", fh.read().replace(b"\0", b" ").decode()[:120]))
+        log = srv.read_log()
+        tr.append(("new master up", up, "ModuleNotFoundError in log", "No module named 'http.client'" in log))
+        if not up:
+            key = KEY_DASHM if "No module named 'http.client'" in log else None
+            fails.append(("KNOWN:%s " % key if key else "") + "started as `python -m gunicorn`: after USR2 the new master did not come up (its workers fail to "
+                         "boot: the re-exec runs <pkgdir>/gunicorn/__main__.py, which puts gunicorn/ first on sys.path and shadows the standard library's http)")
+    except Exception as e:
+        fails.append("harness: %s: %s" % (type(e).__name__, e))
+    finally:
+        tr.append(("log-tail", srv.read_log()[-400:]))
+        srv.cleanup()
+    return fails, tr
+
+
 def run_real(ctx):
+    fails, tr = dash_m_scenario()
+    ctx.count_case(("real", "dash-m"), nontrivial=True)
+    for f in fails:
+        rep = {"kind": "real-dash-m", "trace": [list(map(repr, t)) for t in tr]}
+        if f.startswith("harness:"):
+            ctx.broken.append("real-process run dash-m could not be carried out: %s" % f[:400])
+        elif f.startswith("KNOWN:"):
+            key, text = f[6:].split(" ", 1)
+            ctx.violation("two real masters (python -m gunicorn): " + text, rep, key=key)
+        else:
+            ctx.violation("two real masters (python -m gunicorn): " + f, rep)
     if ctx.quick():
         scns = [("old-first", "unix", "TERM", "sync"), ("new-first", "unix", "QUIT", "sync"), ("second-usr2", "tcp", "TERM", "gthread")]
     else:
